@@ -82,7 +82,7 @@ func ruleStateCommit(c *Ctx) []Obligation {
 	}
 	// (1) the dictionary handed to the builder is a scratch one
 	con := "typedefs of a statement under construction go to a scratch dictionary, not to the module set's"
-	for _, ci := range c.callsTo(parse, buildAST) {
+	for _, ci := range c.callsToDeep(parse, buildAST) {
 		arg := ci.Common().Args[1]
 		call, isCall := arg.(*ssa.Call)
 		if isCall && call.Call.StaticCallee() != nil && c.isConstructor(call.Call.StaticCallee()) && loopHeaderOf(call.Block()) == loopHeaderOf(ci.Block()) {
@@ -96,9 +96,9 @@ func ruleStateCommit(c *Ctx) []Obligation {
 	// (2) writes into the persistent dictionary from Parse happen only after add succeeded, and no error exit follows in the iteration
 	con = "the scratch dictionary is adopted only after the statement has been accepted"
 	c.ensureEffects()
-	adds := c.callsTo(parse, add)
+	adds := c.callsToDeep(parse, add)
 	var writers []ssa.CallInstruction
-	eachInstr(parse, func(in ssa.Instruction) {
+	c.eachInstrDeep(parse, func(in ssa.Instruction) {
 		ci, isCI := in.(ssa.CallInstruction)
 		if !isCI {
 			return
@@ -160,7 +160,7 @@ func ruleStateCommit(c *Ctx) []Obligation {
 			}
 			// no error return reachable from the writer within the iteration (before the next build)
 			h := loopHeaderOf(w.Block())
-			eachInstr(parse, func(in ssa.Instruction) {
+			c.eachInstrDeep(parse, func(in ssa.Instruction) {
 				r, isr := in.(*ssa.Return)
 				if !isr || !reaches(w, r) {
 					return
@@ -322,7 +322,7 @@ func ruleStateReset(c *Ctx) []Obligation {
 	con := "the namespace cache is cleared whenever a module is filed"
 	if fByNS != nil {
 		cleared := false
-		for _, st := range storesToField(add, fByNS) {
+		for _, st := range c.storesToFieldDeep(add, fByNS) {
 			if _, isMake := st.Val.(*ssa.MakeMap); isMake {
 				cleared = true
 				// must be on every path that files the module: dominated by … simply: dominates every success return
@@ -442,23 +442,34 @@ func (c *Ctx) rebuiltInWriter(key string) string {
 	}
 	// a map field: every insertion happens in one function, after that function stored a fresh map
 	if _, isMap := f.Type().Underlying().(*types.Map); isMap {
-		var w *ssa.Function
 		var ups []*ssa.MapUpdate
-		single := true
+		var upFns []*ssa.Function
 		for _, fn := range c.Funcs {
 			if fn.Pkg == nil || shortPkg(fn.Pkg.Pkg.Path()) != "yang" {
 				continue
 			}
 			for _, mu := range mapUpdatesOnField(fn, f) {
-				if w != nil && w != fn {
-					single = false
-				}
-				w = fn
+				upFns = append(upFns, fn)
 				ups = append(ups, mu)
 			}
 		}
+		for _, fn := range c.Funcs {
+			if fn.Pkg == nil || shortPkg(fn.Pkg.Pkg.Path()) != "yang" {
+				continue
+			}
+			for _, st := range storesToField(fn, f) {
+				if _, isAl := rootOf(st.Addr).(*ssa.Alloc); isAl {
+					continue // an object under construction
+				}
+				if _, isMake := st.Val.(*ssa.MakeMap); isMake {
+					upFns = append(upFns, fn)
+				}
+			}
+		}
+		w := c.commonInlineRoot(upFns)
+		single := w != nil && len(ups) > 0
 		if single && w != nil {
-			for _, st := range storesToField(w, f) {
+			for _, st := range c.storesToFieldDeep(w, f) {
 				if _, isMake := st.Val.(*ssa.MakeMap); !isMake {
 					continue
 				}
@@ -474,7 +485,7 @@ func (c *Ctx) rebuiltInWriter(key string) string {
 			}
 		}
 	}
-	var writer *ssa.Function
+	var storeFns []*ssa.Function
 	for _, fn := range c.Funcs {
 		if fn.Pkg == nil || shortPkg(fn.Pkg.Pkg.Path()) != "yang" {
 			continue
@@ -485,22 +496,24 @@ func (c *Ctx) rebuiltInWriter(key string) string {
 					continue // field of an object under construction
 				}
 			}
-			if writer != nil && writer != rootFn(fn) {
-				return ""
-			}
-			writer = rootFn(fn)
+			storeFns = append(storeFns, fn)
 		}
 	}
+	writer := c.commonInlineRoot(storeFns)
 	if writer == nil {
 		return ""
 	}
 	var clears, others []*ssa.Store
+	under := map[*ssa.Function]bool{writer: true}
+	for _, h := range c.helpersUnder(writer) {
+		under[h] = true
+	}
 	for _, fn := range c.Funcs {
-		if rootFn(fn) != writer {
+		if !under[rootFn(fn)] {
 			continue
 		}
 		for _, st := range storesToField(fn, f) {
-			if fn != writer {
+			if fn.Parent() != nil {
 				return "" // stores inside closures: order not decided here
 			}
 			if isNilConst(st.Val) {
@@ -513,24 +526,28 @@ func (c *Ctx) rebuiltInWriter(key string) string {
 	if len(clears) == 0 || len(others) == 0 {
 		return ""
 	}
-	for _, o := range others {
-		covered := false
-		for _, cl := range clears {
-			// the outermost loop around the clearing store
-			h := loopHeaderOf(cl.Block())
-			for h != nil && h.Idom() != nil {
-				outer := loopHeaderOf(h.Idom())
-				if outer == nil || !blockReaches(h, outer, nil) {
-					break
+	for _, o0 := range others {
+		for _, o := range liftAll(o0, writer, 0) {
+			covered := false
+			for _, cl0 := range clears {
+				for _, cl := range liftAll(cl0, writer, 0) {
+					// the outermost loop around the clearing store (or around the call of the helper that holds it)
+					h := loopHeaderOf(cl.Block())
+					for h != nil && h.Idom() != nil {
+						outer := loopHeaderOf(h.Idom())
+						if outer == nil || !blockReaches(h, outer, nil) {
+							break
+						}
+						h = outer
+					}
+					if h != nil && h.Dominates(o.Block()) && !blockReaches(o.Block(), cl.Block(), nil) {
+						covered = true
+					}
 				}
-				h = outer
 			}
-			if h != nil && h.Dominates(o.Block()) && !blockReaches(o.Block(), cl.Block(), nil) {
-				covered = true
+			if !covered {
+				return ""
 			}
-		}
-		if !covered {
-			return ""
 		}
 	}
 	return fmt.Sprintf("rebuilt by its only writer %s: %d clearing store(s) in the visiting loops precede every other store (the loops that append and close run after them and cannot return to them)", c.FnName(writer), len(clears))
@@ -959,7 +976,7 @@ func ruleLockGuarded(c *Ctx) []Obligation {
 					return
 				}
 				// (ii) all callers hold it
-				if c.allCallersHold(fn, gp, kind == "write") {
+				if c.allCallersHold(fn, ownerVal, gp, kind == "write") {
 					obs = append(obs, ok(R, con, pos, "every call site of this function holds the mutex"))
 					return
 				}
@@ -976,7 +993,10 @@ func ruleLockGuarded(c *Ctx) []Obligation {
 
 // holdsLock: a Lock (or RLock, for reads) on owner.mu dominates `at`, and the matching Unlock is deferred or follows.
 func (c *Ctx) holdsLock(fn *ssa.Function, at ssa.Instruction, owner ssa.Value, gp guardPair, write bool) string {
-	ownerAP := AccessPath(owner)
+	return c.holdsLockAP(fn, at, AccessPath(owner), gp, write)
+}
+
+func (c *Ctx) holdsLockAP(fn *ssa.Function, at ssa.Instruction, ownerAP string, gp guardPair, write bool) string {
 	found := ""
 	eachInstr(fn, func(in ssa.Instruction) {
 		ci, ok := in.(ssa.CallInstruction)
@@ -1033,10 +1053,23 @@ func (c *Ctx) holdsLock(fn *ssa.Function, at ssa.Instruction, owner ssa.Value, g
 	return found
 }
 
-func (c *Ctx) allCallersHold(fn *ssa.Function, gp guardPair, write bool) bool {
+func (c *Ctx) allCallersHold(fn *ssa.Function, ownerVal ssa.Value, gp guardPair, write bool) bool {
 	node := c.Graph().Nodes[fn]
 	if node == nil || len(node.In) == 0 {
 		return false
+	}
+	// the owner of the guarded map, as a path below one of fn's parameters
+	ownerAP := AccessPath(ownerVal)
+	root := rootOf(ownerVal)
+	pidx := -1
+	for i := range fn.Params {
+		if isParamN(fn, root, i) {
+			pidx = i
+		}
+	}
+	suffix := ""
+	if pidx >= 0 {
+		suffix = strings.TrimPrefix(ownerAP, AccessPath(root))
 	}
 	n := 0
 	for _, e := range node.In {
@@ -1045,12 +1078,15 @@ func (c *Ctx) allCallersHold(fn *ssa.Function, gp guardPair, write bool) bool {
 			continue
 		}
 		n++
-		// the receiver at the call site
 		args := actualArgs(e.Site)
 		if len(args) == 0 {
 			return false
 		}
-		if c.holdsLock(caller, e.Site, args[0], gp, write) == "" {
+		ap := AccessPath(args[0])
+		if pidx >= 0 && pidx < len(args) {
+			ap = AccessPath(args[pidx]) + suffix
+		}
+		if c.holdsLockAP(caller, e.Site, ap, gp, write) == "" {
 			return false
 		}
 	}
